@@ -258,6 +258,37 @@ def run(tier="quick", seed=0, arg=None):
                     fail("C15.nf", {"marker": tm, "op": "exclude", "name": name}, {"result": str(x), "why": OM.nf(x)}, "normal form")
                 if not (x.is_any() or x.is_empty()):
                     check_result("exclude", x, vec(x), {"marker": tm, "op": "exclude", "name": name})
+    # C02 on environments whose version value is a pre-, post- or dev-release of the bound (python_full_version is "3.13.0rc1" while a release candidate
+    # is installed): two atoms on one variable around one literal, `&` and `|`, against the operands' own answers (finding D22: merged in the interval model)
+    for var, lit, rel in (("python_full_version", "3.13", "3.13.0"), ("python_full_version", "3.8.5", "3.8.5"), ("platform_release", "5.10", "5.10.0")):
+        vals = [rel, rel + "rc1", rel + ".post1", rel + ".dev1"]
+        lits = [lit] + ([lit + ".0"] if lit.count(".") < 2 else [])
+        base_env = {k: v for k, v in envs[0].items()}
+        base_env["extra"] = ""
+        for o1 in ("<", "<=", ">", ">=", "==", "!="):
+            for o2 in ("<", "<=", ">", ">=", "==", "!="):
+                for l2 in lits:
+                    ta, tb = f'{var} {o1} "{lit}"', f'{var} {o2} "{l2}"'
+                    try:
+                        a, b = parse_marker(ta), parse_marker(tb)
+                        results = (("and", a & b), ("or", a | b))
+                    except Exception as e:  # noqa: BLE001
+                        fail("C02.nonfinal-env.raises", {"a": ta, "b": tb}, repr(e), "no exception")
+                        continue
+                    for v in vals:
+                        e = dict(base_env, **{var: v})
+                        if var == "python_full_version":
+                            e["python_version"] = ".".join(v.split(".")[:2])
+                        try:
+                            ea, eb = a.evaluate(e), b.evaluate(e)
+                        except Exception:  # noqa: BLE001
+                            continue
+                        for op, r in results:
+                            evals += 1
+                            exp = (ea and eb) if op == "and" else (ea or eb)
+                            got = r.evaluate(e)
+                            if got != exp:
+                                fail(f"C02.{op}.nonfinal-env", {"a": ta, "b": tb, "op": op, "env": e, "rendered": str(r)}, got, exp)
     return {"suite": "marker_algebra", "evaluations": evals, "distinct_nontrivial": len(distinct), "not_evaluated": timeouts,
             "rule": "markers parsed from the well-defined atom pool (%d atoms, both operand orders) and random and/or combinations (%d markers); pairs/triples "
                     "sampled with VERIF_SEED; every result evaluated on %d environments (python 2.7-4.0 patch levels x string pools x extra sets); "
